@@ -3,6 +3,7 @@ F1: real ParquetFile._column_filter / _columns_from_filters over vector shims; d
     list of lists = OR of ANDs, partition clauses honoured).
 F2: real ParquetFile.to_pandas (mask branch) and count() on a shim handle: each selected row lands at its rank among
     the selected rows; fully selected groups are read unmasked; empty groups skipped; count == popcount."""
+import os
 from typing import List, Optional
 
 from vf.pyshim.kit import OPS, row_pred, BoolVec, Frame, NPVec, REPLAY
@@ -190,5 +191,109 @@ def _replay_rows(rows, filters, flat):
             return True, "filters=%r on rows %r: to_pandas(row_filter=True) returns %r (count()=%d), documented " \
                          "semantics give %r" % (filters, rows, got, cnt, want)
         return False, "exact"
+    finally:
+        shutil.rmtree(d, ignore_errors=True)
+
+
+# ----------------------------------------------------------------- count(filters, row_filter=True) ---
+class _DFrame(Frame):
+    """pandas contract: a frame is `empty` when either axis has length zero (rows without columns included)"""
+
+    @property
+    def empty(self):
+        return self.n == 0 or len(self.cols) == 0
+
+
+class _CountHandle:
+    """two row groups (partition value p_i, rows a_i): what count() reads from `self`"""
+    _columns_from_filters = ParquetFile._columns_from_filters
+    _column_filter = ParquetFile._column_filter
+    count = ParquetFile.count
+    iter_row_groups = ParquetFile.iter_row_groups
+
+    def __init__(self, groups):
+        self.groups = groups                       # [(p, [a values])]
+        self.row_groups = list(range(len(groups)))
+        self.cats = {"p": sorted(set(g[0] for g in groups))}
+
+    def kept(self, filters):
+        # row-group level contract (C05): a group whose partition value fails every AND group is pruned
+        if filters and isinstance(filters[0][0], str):
+            filters = [filters]
+        out = []
+        for i in self.row_groups:
+            p = self.groups[i][0]
+            if not filters or any(all(row_pred(c[1], p, c[2]) for c in grp if c[0] == "p") for grp in filters):
+                out.append(i)
+        return out
+
+    def to_pandas(self, columns=None, filters=[], row_filter=False, index=None, **kw):
+        vals = []
+        for i in self.kept(filters):
+            vals = vals + list(self.groups[i][1])
+        cols = {"a": vals} if (columns is None or "a" in columns) else {}
+        return _DFrame(cols, len(vals))
+
+    def __getitem__(self, i):
+        return _CountHandle([self.groups[self.row_groups[i]]])
+
+
+SHAPE = int(os.environ.get("VERIF_FSHAPE", "0"))
+
+
+def h_count_row_filter(p0: int, p1: int, a0: int, a1: int, op1: int, v1: int, vp: int, pne: bool) -> bool:
+    """
+    pre: 0 <= op1 < 7
+    post: __return__
+    """
+    a2, n0, shape = a1, 1, SHAPE
+    # rows a0..a2 split over two row groups (n0 in the first) with partition values p0, p1; filter programs:
+    #   0: [A]   1: [P]   2: [[A, P]]   3: [[P, A]]     (A on the data column, P on the partition column)
+    # count(filters, row_filter=True) is the number of rows a filtered read returns
+    A, P = ("a", OPS[op1], v1), ("p", "!=" if pne else "==", vp)
+    filters = [[A], [P], [[A, P]], [[P, A]]][shape]
+    vals = [a0, a1, a2]
+    groups = [(p0, vals[:n0]), (p1, vals[n0:])]
+    h = _CountHandle(groups)
+    saved = api.filter_row_groups
+    api.filter_row_groups = lambda pf, filters, as_idx=False: pf.kept(filters)
+    try:
+        got = h.count(filters=filters, row_filter=True)
+    finally:
+        api.filter_row_groups = saved
+    want = 0
+    for p, rows in groups:
+        for a in rows:
+            ok = True
+            for c in ([filters] if isinstance(filters[0][0], str) else filters)[0]:
+                ok = ok and row_pred(c[1], a if c[0] == "a" else p, c[2])
+            want += (1 if ok else 0)
+    return got == want
+
+
+def replay_h_count_row_filter(p0, p1, a0, a1, op1, v1, vp, pne):
+    a2, n0, shape = a1, 1, SHAPE
+    import os, shutil, tempfile
+    import pandas as pd
+    import fastparquet
+    if p0 == p1 and n0 not in (0, 3):
+        p1 = p0 + 1 if vp != p0 + 1 else p0 + 2       # two directories need two labels
+    A, P = ("a", OPS[op1], v1), ("p", "!=" if pne else "==", vp)
+    filters = [[A], [P], [[A, P]], [[P, A]]][shape]
+    vals = [a0, a1, a2]
+    df = pd.DataFrame({"a": vals, "p": [p0] * n0 + [p1] * (3 - n0)})
+    d = tempfile.mkdtemp(prefix="c13-")
+    try:
+        dn = os.path.join(d, "ds")
+        fastparquet.write(dn, df, file_scheme="hive", partition_on=["p"])
+        pf = fastparquet.ParquetFile(dn)
+        cnt = int(pf.count(filters=filters, row_filter=True))
+        flt = [filters] if isinstance(filters[0][0], str) else filters
+        want = sum(1 for a, p in zip(df["a"], df["p"]) if all(row_pred(c[1], a if c[0] == "a" else p, c[2])
+                                                              for c in flt[0]))
+        if cnt != want:
+            return True, "count(filters=%r, row_filter=True) = %d on rows a=%r p=%r; %d rows satisfy the filter" % (
+                filters, cnt, vals, list(df["p"]), want)
+        return False, "count agrees"
     finally:
         shutil.rmtree(d, ignore_errors=True)
